@@ -53,7 +53,14 @@ func isCallTo(n ast.Node, suffix string) bool {
 	return ok && strings.HasSuffix(selString(c.Fun), suffix)
 }
 
-func rtmpFacts(p *pkgInfo, w *bytes.Buffer) error {
+func rtmpFacts(p *pkgInfo, out *bytes.Buffer) error {
+	sec := &sections{w: out}
+	sec.run("WriteMessage follows its own Set Chunk Size (C01)", func(w *bytes.Buffer) error { return rtmpFactsWriter(p, w) })
+	sec.run("transaction bookkeeping order and locking (C04)", func(w *bytes.Buffer) error { return rtmpFactsTxn(p, w) })
+	return sec.err()
+}
+
+func rtmpFactsWriter(p *pkgInfo, w *bytes.Buffer) error {
 	// 1. WriteMessage assigns the output chunk size (the writer follows its own Set Chunk Size).
 	wm := p.funcDecl("Protocol", "WriteMessage")
 	if wm == nil {
@@ -78,7 +85,10 @@ func rtmpFacts(p *pkgInfo, w *bytes.Buffer) error {
 	}) != token.NoPos
 	fmt.Fprintf(w, "/-- `WriteMessage` assigns `output.opt.chunkSize` (%v) under a `== MessageTypeSetChunkSize` test (%v). -/\ndef writerFollowsOwnSetChunkSize : Bool := %v\n",
 		follows, guarded, follows && guarded)
+	return nil
+}
 
+func rtmpFactsTxn(p *pkgInfo, w *bytes.Buffer) error {
 	// 2. WritePacket: is the transaction registered before the message can reach the transport?
 	wp := p.funcDecl("Protocol", "WritePacket")
 	if wp == nil {
@@ -183,11 +193,11 @@ func rtmpFacts(p *pkgInfo, w *bytes.Buffer) error {
 func init() {
 	prev := facts["rtmp"]
 	facts["rtmp"] = func(p *pkgInfo, w *bytes.Buffer) error {
-		if err := prev(p, w); err != nil {
-			return err
-		}
+		sec := &sections{w: w}
+		sec.run("chunk layer", func(b *bytes.Buffer) error { return prev(p, b) })
 		w.WriteString("\n")
-		return rtmpPacketFacts(p, w)
+		sec.run("packet layer: constructors, dispatch tables, registration (C03)", func(b *bytes.Buffer) error { return rtmpPacketFacts(p, b) })
+		return sec.err()
 	}
 }
 
